@@ -4,7 +4,7 @@ from hypothesis import strategies as st
 
 from .. import gen
 from ..core import SubCheck, Violation
-from ..oracle import (lib, lib_uninitialised, np_rows, np_flat, lazy_ra, mk_rows, expect_ragged, expect_refused, expect_unchanged, expect_array,
+from ..oracle import (LAZY_CHOICES, lib, lib_uninitialised, np_rows, np_flat, lazy_ra, mk_rows, expect_ragged, expect_refused, expect_unchanged, expect_array,
                       jsonable, arrays_equal)
 
 RULE = ("Cases per function: concatenate along rows (1-4 operands, zero-row operands included) and along columns (equal row "
@@ -16,7 +16,7 @@ RULE = ("Cases per function: concatenate along rows (1-4 operands, zero-row oper
 ASSUMPTIONS = ["np.where with a scalar x is refused by the library and outside the property's 'operands' shape' domain: not asserted",
                "as_padded_matrix is asserted on arrays with at least one element"]
 
-LZ = st.sampled_from([0, 0, 0, 1, 2, 3, 4])
+LZ = st.sampled_from(LAZY_CHOICES)
 
 
 def labels(ctx, lens, *more):
@@ -58,24 +58,27 @@ def body_concat1(case, ctx):
     n = len(parts[0]["lens"])
     allrows = [np_rows(p) for p in parts]
     ras = [lazy_ra(r, p["dt"], z) for r, p, z in zip(allrows, parts, case["lz"])]
-    exp = [np.concatenate([rs[i] for rs in allrows]) for i in range(n)]
-    ctx.label("k:%d" % len(parts), "zero-rows" if n == 0 else "rows")
-    ctx.nt(any(0 in p["lens"] for p in parts))
+    exp_dt = np.result_type(*[p["dt"] for p in parts])
+    exp = [np.concatenate([rs[i] for rs in allrows]).astype(exp_dt) for i in range(n)]
+    ctx.label("k:%d" % len(parts), "zero-rows" if n == 0 else "rows", "mixed-dtype" if len({p["dt"] for p in parts}) > 1 else "same-dtype")
+    ctx.nt(any(0 in p["lens"] for p in parts) or len({p["dt"] for p in parts}) > 1)
     got = lib(lambda: np.concatenate(ras, axis=case["axis"]))
-    expect_ragged(got, exp, "concatenate-columns", exp_dtype=parts[0]["dt"])
+    expect_ragged(got, exp, "concatenate-columns", exp_dtype=exp_dt)
     for ra, rows, p in zip(ras, allrows, parts):
         expect_unchanged(ra, rows, p["dt"], "concatenate-operand")
 
 
 @st.composite
 def concat1_case(draw, tier):
-    k = draw(st.integers(1, 3))
+    k = draw(st.integers(1, 4))
     n = draw(st.integers(0, 5))
-    dt = draw(st.sampled_from(gen.ALL_DT))
+    dt0 = draw(st.sampled_from(gen.ALL_DT))
+    same = draw(st.booleans())
     parts = []
     for _ in range(k):
+        dt = dt0 if same else draw(st.sampled_from(gen.ALL_DT))
         lens = draw(st.lists(st.sampled_from([0, 0, 1, 2, 3]), min_size=n, max_size=n))
-        parts.append({"lens": lens, "dt": dt, "vals": draw(gen.flat_values(dt, sum(lens)))})
+        parts.append({"lens": lens, "dt": dt, "vals": draw(gen.flat_values(dt, sum(lens), specials=False))})
     return {"parts": parts, "lz": [draw(LZ) for _ in range(k)], "axis": draw(st.sampled_from([-1, 1]))}
 
 
